@@ -340,6 +340,8 @@ def rnd_leaf_value(rng, f):
         return {"t": rng.choice(["list", "tuple"]), "l": [rnd_leaf_value(rng, f["item"]) for _ in range(rng.randint(0, 3))]}
     if kind == "dict":
         return {"t": "dict", "kv": [[S(k), rnd_leaf_value(rng, f["valf"])] for k in rng.sample(["k", "K", "m", "n"], rng.randint(0, 3))]}
+    if kind == "filename":
+        return S(rng.choice(["g", "f", "m", "d", "$/f", "$/d/g", "$/m", "d/g", ""]))
     if kind in ("ipv4addr", "ipv4net", "hostname", "url", "float", "bytes"):
         from .c05 import rnd_value
 
